@@ -15,15 +15,15 @@ CONFIG = {
     ],
     "assumptions": [
         "model/BclFmt.v is the hand-written model of fmt.go and description.go as they are after the fix: commits listed in KNOWN_FINDINGS.txt (tokenSource with the lexer's own escapes, Fields-based re-flow, bare '|' for an empty description), on top of the C11 models; tied to the code by byte-exact comparison of Fmt output (or its rejection) on every generated file, and of tokenSource / reformatDescription on random literals",
-        "the theorems are the literal / token level and totality; the full statement (C09_full_statement) is NOT proved: the clauses 'output accepted', 'same document', 'idempotent' are decided on each run's inputs by the direct oracle only",
+        "the full statement (C09_full_statement) is a Definition and is NOT proved; its clauses 'output accepted' and 'same document' are proved for all inputs (C09_accepted_same_document), over the walker's flat fragment list with nesting as the sequence of opening headers and closing braces; 'idempotent' is decided on each run's inputs by the direct oracle only (proved only for the description re-flow)",
     ],
     "mult_search": 4,
     "refuted": [],
-    "partial": ["C09_full_statement is a Definition only (no theorem has it as conclusion); the clauses output-accepted, same-document and idempotent are NOT proved for whole files; proved components: totality, formatter accepts what the parser accepts, tokenSource/lexer inverse pairs for STRING, REGEX, DESCRIPTION, COMMENT, BLOCK_COMMENT, separation lemmas for identifiers and integers, token round trip for every token the lexer can emit (C09_token_roundtrip), line-level relex for every renderable single-line fragment (C09_line_relex, C09_fragments_renderable), sequence relex of separated items (C09_sequence_relex), walker half of the round trip: walking the canonical token stream of a walker-produced fragment list gives the same fragments up to positions (C09_walk_back), fixed-point property of the description re-flow (C09_reflow_fixed_point) and its preservation of words and paragraph breaks (C09_reflow_same_paragraphs). Missing: description-block lines at line level, the file-level composition lex(Fmt x) = canonical stream, acceptance of the output from block structure, idempotence beyond the re-flow"],
+    "partial": ["C09_full_statement is a Definition only; proved for all inputs: every clause except idempotence (C09_accepted_same_document = fmt succeeds, output accepted by the parser, output's fragments have the same documents; also C09_output_accepted, C09_same_document). NOT proved: fmt_runes out = Ok out (formatting twice changes nothing) — only its description part (C09_reflow_fixed_point); the blank lines depend on token positions in the output, which no theorem computes. Component theorems: totality, tokenSource/lexer inverse pairs, C09_token_roundtrip, C09_sequence_relex, C09_line_relex, C09_fragments_renderable, C09_walk_back, C09_reflow_same_paragraphs"],
 }
 
 MANIFEST = {
-    "text": "Theorems over a Gallina model of the formatter (tokenSource, fmter, reformatDescription, Fmt) on top of the proved lexer/walker models: Fmt never panics or exhausts fuel; it accepts every file the parser accepts; for every token the lexer can emit (C09_token_roundtrip, side conditions discharged by the lexer lemma next_token_lit_ok), lexing the text tokenSource renders, followed by anything that cannot extend the token (the stated separation condition), returns the same token type and literal and stops right after it — strings for ALL rune lists (escapes \\\\ \\\" and escaped newline), regexes (// for /), descriptions, line comments, block comments (no */ inside), and identifiers / integers as their own source; the description re-flow is a fixed point (reformat(join(reformat x)) = reformat x for every text and width) and keeps the words and paragraph breaks (desc_doc(join(reformat x)) = desc_doc x). The full property (output accepted by the parser, same document, idempotent) is stated as C09_full_statement and is not proved; its clauses are evaluated by the direct oracle on every generated file, and Fmt's output is compared byte for byte with the model's.",
-    "note": "PARTIAL: component theorems only; C09_full_statement is a Definition, not a theorem. Proved: totality, literal/token/line-level relex, renderability of walker output, the walker half of the round trip (C09_walk_back), the re-flow fixed point. Not proved: that lexing the whole output gives the canonical token stream (the link between C09_line_relex and C09_walk_back), hence none of accepted / same document / idempotent at file level; those are oracle-checked per run. The proofs are for the code after fixes ab323ff (tokenSource used %q and did not re-double '/'), 4c24869 (re-flow not a fixed point), 266986b (empty description printed as an empty line) and e44da54 (spurious blank line after a brace-less header with a trailing comment). Trusted: Coq kernel, translator, harness; Go string functions modelled.",
-    "technique": "Rocq/Coq proof (inverse-pair lemmas between tokenSource and each lexer routine by induction on the literal) + byte-exact in-Coq differential correspondence of Fmt, tokenSource and reformatDescription + direct oracle (re-parse, position-free document comparison, format twice)",
+    "text": "Theorems over a Gallina model of the formatter (tokenSource, fmter, reformatDescription, Fmt) on top of the proved lexer/walker models, for all inputs (rune lists): Fmt never panics or exhausts fuel; for every file the parser accepts, Fmt succeeds, the parser accepts the output, and the output's fragments (read again by lexer and walker) have the same documents as the input's: block types, tags with marks, qualifiers, nesting (sequence of opening headers / closing braces), assignment keys, operators and literal values (type and literal of every token), comments, and descriptions with the same words and paragraph breaks (C09_accepted_same_document). Built from: every token the lexer emits is read back from tokenSource's text when followed by text that cannot extend it; every line the formatter writes lexes to the fragment's canonical tokens; the whole output lexes to the canonical stream (description blocks incl. the bare | line, blank lines, indentation); adjacent description blocks are separated by an empty source line; the walker rebuilds the fragments from the canonical stream; the re-flow keeps words and paragraph breaks and is a fixed point. NOT proved: idempotence of the whole formatter (Fmt(Fmt x) = Fmt x) — stated in C09_full_statement, evaluated by the direct oracle on every generated file; Fmt's output is compared byte for byte with the model's.",
+    "note": "PARTIAL: C09_full_statement is a Definition, not a theorem. Proved for all inputs: formatter succeeds on accepted files, output accepted, same document (C09_accepted_same_document). Not proved: formatting twice changes nothing (only the description re-flow part, C09_reflow_fixed_point); oracle-checked per run. 'Same document' is over the walker's fragment list (comments included, nesting as open/close sequence); values compare token type and literal, so x = a.b and x = \"a.b\" are the same value as in the parser. The proofs are for the code after fixes ab323ff (tokenSource used %q and did not re-double '/'), 4c24869 (re-flow not a fixed point), 266986b (empty description printed as an empty line) and e44da54 (spurious blank line after a brace-less header with a trailing comment). Trusted: Coq kernel, translator, harness; Go string functions modelled.",
+    "technique": "Rocq/Coq proof (inverse-pair lemmas tokenSource/lexer by induction on the literal; line- and file-level relex by explicit construction of the NextToken run; walker run constructed from the canonical stream; lexer/walker position invariants for the description gap; word-level machines for the re-flow) + byte-exact in-Coq differential correspondence of Fmt, tokenSource and reformatDescription + direct oracle (re-parse, position-free document comparison, format twice)",
 }
